@@ -310,6 +310,34 @@ def fam_pairs(shape: tuple[int, ...] = (2, 3, 4)) -> Iterator[dict]:
                    "calls": [apply(c1, 1), apply(c2, 2)], "outs": {"out": 3}}
 
 
+def fam_pad() -> Iterator[dict]:
+    """Every documented FORM of pad_width and constant_values (a number, one
+    (before, after) pair, one pair per axis); with different before / after
+    constants only along one axis at a time (corner values are undefined)."""
+    x1, x2 = inp("x", (3,)), inp("x", (2, 3))
+    k = 0
+    for width in (1, [1, 2], [[2, 0]], [[0, 3]], 0):
+        for cval in (0, 1.5, [2.0, -1.0], [[3.0, 4.0]]):
+            yield {"id": f"pad/1d/{k}", "inputs": [x1],
+                   "calls": [{"op": "pad", "a": 1, "width": width, "cval": cval}],
+                   "outs": {"out": 2}}
+            k += 1
+    for width in (1, [1, 2], [[1, 0], [0, 2]], [[0, 0], [2, 1]], [[1, 2], [0, 0]]):
+        for cval in (0, -2.5, [[1.0, 1.0], [1.0, 1.0]]):
+            yield {"id": f"pad/2d/{k}", "inputs": [x2],
+                   "calls": [{"op": "pad", "a": 1, "width": width, "cval": cval}],
+                   "outs": {"out": 2}}
+            k += 1
+    # different constants before / after: one padded axis at a time
+    for width, cval in (([[0, 0], [2, 1]], [[9.0, 9.0], [5.0, 7.0]]),
+                        ([[1, 2], [0, 0]], [[5.0, 7.0], [9.0, 9.0]]),
+                        ([[0, 0], [1, 1]], [5.0, 7.0]), ([[2, 1], [0, 0]], [5.0, 7.0])):
+        yield {"id": f"pad/2d/{k}", "inputs": [x2],
+               "calls": [{"op": "pad", "a": 1, "width": width, "cval": cval}],
+               "outs": {"out": 2}}
+        k += 1
+
+
 def fam_nan() -> Iterator[dict]:
     """NaN / inf / signed zeros at DIFFERENT positions of the two operands (in
     the first only, in the second only, in both) for the operations of the
